@@ -216,6 +216,10 @@ type World struct {
 	Insts  []*Instance
 
 	NodeGates bool
+	// PostCommitGates: followers park once more right after every successful
+	// commit (the store is ahead of their in-memory copies there); set by the
+	// C17 runner for all its modes
+	PostCommitGates bool
 	// WalletsComeAndGo: the history removes and re-imports wallets (C06, C18)
 	WalletsComeAndGo bool
 	// FatalIsCrash: a logging FATAL (os.Exit in production) is modelled as the
@@ -439,6 +443,7 @@ func (inst *Instance) Open() error {
 		return fmt.Errorf("open wallet db: %w", err)
 	}
 	inst.DB = NewSimDB(inner, w.S, inst)
+	inst.DB.PostCommitGate = w.PostCommitGates
 	inst.srv = newFakeServer(w.Node)
 	inst.QuitClosed, inst.Dead, inst.Started, inst.Stopped, inst.StopRequested, inst.StartFailed = false, false, false, false, false, false
 	inst.handlerG, inst.workerG = nil, nil
